@@ -242,8 +242,132 @@ def case_after_failed_calls(ctx):
                      real, None, {"ok": exp[name]}, features=(failing[0], who))
 
 
+def case_reduce_many_paths(ctx):
+    """several paths in ONE reduce call — also paths that end in the same name in different layers (a base column
+    'a', the field 'a' of a nest, the field 'a' of another nest): every argument is the column item access gives"""
+    rng = ctx.rng
+    nf, schema, markers, lens, base_extra = build_frame(ctx, collide="field_a")
+    nests = list(schema)
+    # make the second nest share a field name with the first
+    shared = schema[nests[0]][0]          # 'a' (the collision case puts it first)
+    if shared not in schema[nests[1]]:
+        vals = [float(5000 + r) for r in range(sum(lens))]
+        nf[f"{bq(nests[1])}.{bq(shared)}"] = np.array(vals)
+        schema[nests[1]] = schema[nests[1]] + [shared]
+        markers[(nests[1], shared)] = {"vals": vals, "nullpos": None}
+    cands = [("base", None, "a"), ("base", None, "x")] + [("field", n, f) for n in nests for f in schema[n]]
+    picks = rng.sample(cands, rng.randint(2, min(4, len(cands))))
+    # always one clash of leaf names across layers
+    if not any(k == "field" and f == shared for k, n, f in picks):
+        picks.append(("field", nests[0], shared))
+    if not any((k == "base" and f == "a") or (k == "field" and n == nests[1] and f == shared) for k, n, f in picks):
+        picks.append(rng.choice([("base", None, "a"), ("field", nests[1], shared)]))
+    rng.shuffle(picks)
+    args = [f if k == "base" else f"{bq(n)}.{bq(f)}" for k, n, f in picks]
+
+    def flat(v, layer):
+        a = np.asarray(v, dtype=float)
+        if a.ndim == 0:
+            # a base value, or what a nested argument is for a row without records (not constrained here)
+            return [float(a.item())] if layer == "base" else []
+        return [None if x != x else float(x) for x in a.tolist()]
+
+    def run():
+        got = [[] for _ in picks]
+
+        def fun(*a):
+            for j, x in enumerate(a):
+                got[j].append(flat(x, picks[j][0]))
+            return {"k": 0}
+        nf.reduce(fun, *args)
+        return got
+    # expected: per row, what item access denotes
+    exp = []
+    for k, n, f in picks:
+        if k == "base":
+            exp.append([[float(v)] for v in pd.DataFrame.__getitem__(nf, f).tolist()])
+        else:
+            col = [None if v is None else float(v) for v in pa.array(nf[f"{bq(n)}.{bq(f)}"]).to_pylist()]
+            rows, kk = [], 0
+            for ln in lens:
+                rows.append(col[kk:kk + ln])
+                kk += ln
+            exp.append(rows)
+    ctx.case("names.reduce_many", {"args": args, "schema": schema_json(nf, schema)}, call_real(run), None, {"ok": exp},
+             features=("reduce_many", f"n={len(picks)}"), nontrivial=True)
+
+
+def case_eval_statements(ctx):
+    """a field written by one statement of an eval is THE field later statements, item access and the listing mean"""
+    rng = ctx.rng
+    nf, schema, markers, lens, _ = build_frame(ctx)
+    nest = rng.choice(list(schema))
+    f = rng.choice(schema[nest])
+    g = rng.choice([x for x in schema[nest] if x != f] or [f])
+    p, pg = f"{bq(nest)}.{bq(f)}", f"{bq(nest)}.{bq(g)}"
+    new = f"{bq(nest)}.`d e`" if rng.random() < 0.5 else f"{bq(nest)}.dnew"
+    newname = "d e" if "d e" in new else "dnew"
+    prog = rng.choice([
+        f"{p} = {p} + 1\n{new} = {p} * 2",                 # overwrite an existing field, then read it
+        f"{p} = {pg} * 0 + 7\n{new} = {p} + {pg}",
+        f"{new} = {p} + 1\n{p} = {new} * 2\n{new} = {p} - 1",
+    ])
+    inplace = True
+
+    def run():
+        nf2 = nf.copy()
+        nf2.eval(prog, inplace=inplace)
+        cols = {}
+        for ff in list(schema[nest]) + [newname]:
+            cols[ff] = [None if v is None else float(v) for v in pa.array(nf2[f"{bq(nest)}.{bq(ff)}"]).to_pylist()]
+        cols["fields"] = list(nf2[nest].nest.fields)
+        return cols
+    # expected by running the statements one at a time through item access / item assignment
+    env = {ff: [None if v is None else float(v) for v in pa.array(nf[f"{bq(nest)}.{bq(ff)}"]).to_pylist()] for ff in schema[nest]}
+    fields = list(schema[nest])
+
+    sym = {p: f, pg: g, new: newname}
+
+    def toks_of(expr):
+        for k, spelling in enumerate(sorted(sym, key=len, reverse=True)):
+            expr = expr.replace(spelling, f"@{k}@")
+        out = []
+        for t in expr.split(" "):
+            if t.startswith("@"):
+                out.append(("field", sym[sorted(sym, key=len, reverse=True)[int(t.strip("@"))]]))
+            else:
+                out.append(("tok", t))
+        return out
+
+    def val(t):
+        return env[t[1]] if t[0] == "field" else [float(t[1])] * sum(lens)
+
+    def ev(expr):
+        toks = toks_of(expr)
+        acc = val(toks[0])
+        i = 1
+        while i < len(toks):
+            op, b = toks[i][1], val(toks[i + 1])
+            acc = [None if (x is None or y is None) else (x + y if op == "+" else x - y if op == "-" else x * y) for x, y in zip(acc, b)]
+            i += 2
+        return acc
+    for line in prog.split("\n"):
+        lhs, rhs = line.split(" = ")
+        tgt = sym[lhs]
+        env[tgt] = ev(rhs)
+        if tgt not in fields:
+            fields.append(tgt)
+    exp = {ff: env[ff] for ff in list(schema[nest]) + [newname]}
+    exp["fields"] = fields
+    ctx.case("names.eval_statements", {"program": prog, "schema": schema_json(nf, schema)}, call_real(run), None, {"ok": exp},
+             features=("eval_statements",), nontrivial=True)
+
+
 def run_all(ctx):
     for i in range(ctx.budget(20, 200)):
         case_after_failed_calls(ctx)
+    for i in range(ctx.budget(25, 250)):
+        case_reduce_many_paths(ctx)
+        case_eval_statements(ctx)
     for i in range(ctx.budget(12, 120)):
         case_paths(ctx, collide=[None, "field_a", "literal_dotted", None][i % 4])
